@@ -95,6 +95,8 @@ type mustUse struct {
 	open   map[string]bool
 	// Prune optionally removes edges that are irrelevant for the parameter (e.g. the "list is empty" edge)
 	Prune func(fi *FuncInfo, f *Flat, po types.Object) *Flat
+	// may: "some path of the helper applies the use" instead of "every path"
+	may bool
 }
 
 func (p *Prog) newMustUse(name string, direct func(fi *FuncInfo, c *ast.CallExpr, match func(ast.Expr) bool) bool) *mustUse {
@@ -149,7 +151,7 @@ func (m *mustUse) Param(fi *FuncInfo, idx int) bool {
 		}))
 		if len(done) > 0 {
 			res = true
-			if !done[f.Entry] {
+			if !done[f.Entry] && !m.may {
 				reach := f.Reach([]int{f.Entry}, func(x *GNode) bool { return done[x.ID] }, nil)
 				for _, e := range f.Exits() {
 					if reach[e] && !f.isNoReturnExit(f.Nodes[e]) {
